@@ -405,8 +405,8 @@ func c14World(t *testing.T, r *simcore.Run) any {
 			key := make([]byte, 32)
 			rand.Read(key)
 			data := ntske.Data{C2sKey: key, S2cKey: key, Cookie: cookies}
-			if len(ck) == 124 && ncook == 1 {
-				continue // 1148 bytes: known finding F13
+			if 48+36+8*(4+padded)+40 > nts.MaxPacketLen {
+				continue // does not fit the encoder's buffer (cookies longer than this project's, all eight fields)
 			}
 			req, uid := nts.NewRequestPacket(data)
 			buf := make([]byte, 48)
